@@ -40,6 +40,8 @@ structure Call where
   readK : Nat                -- bytes the caller reads from the body stream before closing it
   ahead : Nat                -- read-ahead sitting in the bufio.Reader when it is released
   wErr : Bool                -- the stream is closed with an error (closeBodyStream(wErr ≠ nil))
+  writeFails : Bool          -- req.Write(bw) / Flush fails (a request body stream that breaks, a write error): part of the
+                             -- request may be on the connection — it is dirty and must never be pooled
   deriving DecidableEq, Repr
 
 inductive Outcome
@@ -56,6 +58,7 @@ structure RT where
 /-- transport.RoundTrip after the request was written: read the response from `wire ++ (what arrives in time)`,
     decide release-vs-close -/
 def roundTrip (F : Framing) (cfg : Cfg) (wire : Bytes) (c : Call) (resp : Bytes) (arrive : Nat) (later : Bool) : RT :=
+  if c.writeFails then ⟨.err, false, []⟩ else                   -- request write error → CloseConn
   let seen := wire ++ resp.take arrive
   let late := if later then resp.drop arrive else []
   match F.parseHead seen with
